@@ -38,6 +38,55 @@ APPROX = ("reroot", "split")
 
 # ------------------------------------------------------------------ base configurations
 
+USER_MODES = ["sym", "pair", "single", "pair+sym"]
+
+
+def rand_user_predicates(rng, mode=None):
+    """a random predicate set for a user-built TimeReversibleNucleotide: undirected pairs, a complementary
+    directed pair (A>G and G>A as separate parameters) or a single directed predicate.  A set that is not
+    balanced must be refused by the constructor; whatever is accepted must give a root-invariant lnL."""
+    pairs = [("A", "G"), ("C", "T"), ("A", "C"), ("A", "T"), ("C", "G"), ("G", "T")]
+    rng.shuffle(pairs)
+    mode = mode or rng.choice(USER_MODES)
+    preds = []
+    if mode in ("pair", "pair+sym"):
+        x, y = pairs.pop()
+        preds += [[f"{x}to{y}", x, y, True], [f"{y}to{x}", y, x, True]]
+    if mode == "single":
+        x, y = pairs.pop()
+        if rng.random() < 0.5:
+            x, y = y, x
+        preds.append([f"{x}to{y}", x, y, True])
+    if mode in ("sym", "pair+sym", "single"):
+        for x, y in pairs[:rng.randint(1, 3)]:
+            preds.append([f"p{x}{y}", x, y, False])
+    return preds, mode
+
+
+def built_base_case(rng, tier, k=0):
+    """directly built models in the re-rooting block: user predicate sets (nucleotide) and word models with every
+    motif-prob model / motifs= subset / recode_gaps setting"""
+    if k % 5 != 4:
+        preds, mode = rand_user_predicates(rng, USER_MODES[k % 5 % 4] if k % 2 else "sym")
+        c = c02.built_case(rng, tier, "nuc")
+        c["build"] = {"kind": "nuc", "mprob_model": None, "predicates": preds, "may_refuse": True, "mode": mode}
+    else:
+        c = c02.built_case(rng, tier, ["dinuc", "codon"][(k // 5) % 2], c02.MPROB_MODELS[(k // 5 + 2) % 4])
+    # regenerate on a tree with internal nodes so that the root can move
+    kind = c["build"]["kind"]
+    ntips = rng.randint(4, 6 if kind == "nuc" else 5)
+    tree = c02.rand_tree(rng, ntips)
+    names = c02.tips(tree)
+    rng.shuffle(names)
+    words = c["build"].get("motifs") or (list(c02.SENSE) if kind == "codon" else list(c02.DINUCS) if kind == "dinuc" else None)
+    ncols = rng.randint(3, 6) if kind != "nuc" else rng.randint(4, 14)
+    c.update(tree=c02.newick(tree), _t=tree, scoped=None, bins=c02.rand_bins(rng, [2, 3], [0.5, 2.0]) if rng.random() < 0.25 else None,
+             aln=c02.rand_alignment(rng, names, "codon" if kind == "codon" else "dna", ncols, words, c["recode_gaps"]),
+             light=kind != "nuc", xf="base", factor=1)
+    c.pop("block", None)
+    return c
+
+
 def base_case(rng, tier):
     r = rng.random()
     if r < 0.45:
@@ -60,22 +109,25 @@ def base_case(rng, tier):
     ncols = rng.randint(3, 6) if big else rng.randint(4, 16)
     if cls == "dinuc":
         ncols *= 2
+    recode = rng.random() < 0.65
+    words = list(c02.DINUCS) if cls == "dinuc" else None
+    if words:
+        ncols //= 2
     case = dict(model=model, moltype="protein" if kind == "protein" else "dna", tree=c02.newick(tree), _t=tree,
-                aln=c02.rand_alignment(rng, names, kind, ncols), mprobs=None, pseed=rng.randrange(1 << 30), scoped=None,
-                bins=None, light=big, xf="base", factor=1)
+                aln=c02.rand_alignment(rng, names, kind, ncols, words, recode), mprobs=None, pseed=rng.randrange(1 << 30), scoped=None,
+                bins=None, light=big, xf="base", factor=1, recode_gaps=recode)
     if model not in c02.EQUAL_FREQ and cls.startswith("nuc"):
         case["mprobs"] = c02.rand_mprobs(rng, c02.DNA)
     if (cls.startswith("nuc") or cls in ("codon", "dinuc")) and rng.random() < 0.25:
         inner = [x["name"] for x in c02.nodes(tree) if x["len"] is not None]
         case["scoped"] = {"edges": sorted(rng.sample(inner, rng.randint(1, max(1, len(inner) // 2))))}
-    if cls == "nuc-rev" and rng.random() < 0.2:
-        case["bins"] = {"n": rng.choice([2, 3]), "shape": rng.choice([0.5, 1.0, 2.0])}
+    if cls in ("nuc-rev", "codon") and rng.random() < 0.4:
+        case["bins"] = c02.rand_bins(rng, [2, 3], [0.5, 1.0, 2.0])
     return case
 
 
 def mlen_of(case):
-    cls = c02.model_class(case["model"])
-    return 3 if cls == "codon" else 2 if cls == "dinuc" else 1
+    return c02.case_mlen(case)
 
 
 def with_tree(case, tree, **kw):
@@ -177,11 +229,12 @@ def xf_reroot(rng, case, target, merge):
     return with_tree(case, new, xf="reroot", reroot_path=idx, merged=bool(merge and len(path[0]["ch"]) == 2))
 
 
-def xf_split(rng, case, target):
+def xf_split(rng, case, target, extreme=None):
     t = copy.deepcopy(case["_t"])
     path = find_path(t, target)
     parent, node = path[-2], path[-1]
-    r = rng.choice([0.5, 0.25, 0.3, 0.8])
+    # ordinary fractions, and cuts within 1e-9 / 1e-12 of either end of the edge (tiny but positive lengths)
+    r = rng.choice([0.5, 0.25, 0.3, 0.8, 1e-9, 1e-12, 1 - 1e-9, 1e-9, 1e-12]) if extreme is None else extreme
     total = node["len"]
     upper = {"name": "s0", "len": total * r, "ch": [node]}
     node["len"] = total - total * r
@@ -199,12 +252,27 @@ def variants(rng, case, tier):
     inner = [x["name"] for x in c02.nodes(t) if x["ch"] and x["len"] is not None]
     edges = [x["name"] for x in c02.nodes(t) if x["len"] is not None]
     nmax = 2 if tier == "quick" else 4
-    if case["model"] in c02.REVERSIBLE and not case.get("scoped") and inner:
+    if (case["model"] in c02.REVERSIBLE or case.get("build")) and not case.get("scoped") and inner:
         for tg in rng.sample(inner, min(nmax, len(inner))):
             out.append(xf_reroot(rng, case, tg, merge=rng.random() < 0.5))
     for tg in rng.sample(edges, min(nmax, len(edges))):
         out.append(xf_split(rng, case, tg))
+    out.append(xf_split(rng, case, rng.choice(edges), extreme=rng.choice([1e-9, 1e-12, 1 - 1e-10])))
     return out
+
+
+def large_pair(rng, ncols=140000):
+    """6 protein sequences x 140000 random columns on a tree whose non-root node x has 4 tips below it (about
+    93000 distinct site patterns there), and the same alignment with its columns permuted"""
+    names = ["a", "b", "c", "d", "e", "f"]
+    tree = "((a:0.1,b:0.2,c:0.15,d:0.3)x:0.1,e:0.2,f:0.25);"
+    rows = [rng.choices(c02.AA, k=ncols) for _ in names]
+    perm = list(range(ncols))
+    rng.shuffle(perm)
+    base = dict(model="JTT92", moltype="protein", tree=tree, aln=[[n, "".join(r)] for n, r in zip(names, rows)], mprobs=None,
+                pseed=1, scoped=None, bins=None, light="lnL", xf="base", factor=1)
+    permuted = dict(base, aln=[[n, "".join(r[p] for p in perm)] for n, r in zip(names, rows)], xf="cols", perm=perm)
+    return base, permuted
 
 
 def strip(case):
@@ -280,17 +348,37 @@ def run(tier: str, seed: int) -> int:
         "executed model instance Z (Z_laws) on the implementation's own floats scaled by a power of two (see C02)",
     ])
     proof_broken = bool(pr["problems"])
-    nbase = 26 if tier == "quick" else 220
-    bases = [base_case(rng, tier) for _ in range(nbase)]
+    nbase = 26 if tier == "quick" else 180
+    nbuilt = 20 if tier == "quick" else 120
+    bases = [base_case(rng, tier) for _ in range(nbase)] + [built_base_case(rng, tier, k) for k in range(nbuilt)]
     groups = [(b, variants(rng, b, tier)) for b in bases]
     flat = []
     for b, vs in groups:
         flat.append(b)
         flat += vs
-    impl = core.run_impl_sharded("c11_impl.py", [strip(c) for c in flat], nshards=min(core.NPROC, 6))
+    # genome-scale pair (column permutation only; lnL only): > 65535 distinct site patterns below a non-root node
+    big_base, big_perm = large_pair(rng)
+    import concurrent.futures as cf
+
+    with cf.ThreadPoolExecutor(max_workers=2) as ex:
+        fut_big = ex.submit(core.run_impl_sharded, "c11_impl.py", [big_base, big_perm], None, 2)
+        impl = core.run_impl_sharded("c11_impl.py", [strip(c) for c in flat], nshards=min(core.NPROC, 6))
+        big_obs = fut_big.result()
     obs_of = {id(c): o for c, o in zip(flat, impl)}
 
-    stats = dict(pairs=0, by_xf={}, model_variants=0, model_reroot=0)
+    stats = dict(pairs=0, by_xf={}, model_variants=0, model_reroot=0, refused=0, refused_modes={}, accepted_modes={}, large=None)
+    # the large pair
+    bo, po = big_obs
+    if "exc" in bo or "exc" in po:
+        rep.violation("raised:cols:protein:large", dict(case=dict(big_perm, aln="<omitted: regenerate from seed>"), observed_impl=bo if "exc" in bo else po,
+                                                        broken="the genome-scale alignment made the implementation raise or hang"))
+    else:
+        stats["pairs"] += 1
+        stats["large"] = dict(columns=len(big_base["aln"][0][1]), lnL=bo["lnL"], lnL_permuted=po["lnL"])
+        if not abs(bo["lnL"] - po["lnL"]) <= LNL_TOL * max(1.0, abs(bo["lnL"])):
+            rep.violation("cols:protein:large", dict(case=big_perm, base=big_base, expected_by_spec=bo["lnL"], observed_impl=po["lnL"],
+                                                     broken="lnL changes under column permutation of a genome-scale alignment "
+                                                            "(> 65535 distinct site patterns at an internal node)"))
     disagreements = []
     model_jobs = []   # (case, obs, exact)
     reroot_jobs = []  # (path, base, obs, exact)
@@ -300,6 +388,19 @@ def run(tier: str, seed: int) -> int:
             rep.violation(f"raised:base:{c02.shape_key(b)}", dict(case=strip(b), observed_impl=bobs,
                                                                    broken="a valid configuration made the implementation raise or hang"))
             continue
+        mode = (b.get("build") or {}).get("mode")
+        if "refused" in bobs:
+            # an unbalanced user predicate set refused by the TimeReversible constructor: allowed outcome
+            stats["refused"] += 1
+            stats["refused_modes"][mode] = stats["refused_modes"].get(mode, 0) + 1
+            continue
+        if mode:
+            stats["accepted_modes"][mode] = stats["accepted_modes"].get(mode, 0) + 1
+        for c in [b] + vs:
+            o = obs_of[id(c)]
+            bad = c02.param_checks(c, o) if isinstance(o, dict) and "exc" not in o and "refused" not in o else None
+            if bad:
+                rep.violation(f"{bad[0]}:{c02.shape_key(c)}", dict(case=strip(c), base=strip(b), **bad[1]))
         for v in vs:
             compare_variant(rep, b, bobs, v, obs_of[id(v)], stats)
         if not b["light"]:
@@ -392,7 +493,10 @@ def run(tier: str, seed: int) -> int:
         samples=[dict(base=strip(groups[0][0]), transformed=strip(groups[0][1][0]),
                       lnL=[obs_of[id(groups[0][0])].get("lnL"), obs_of[id(groups[0][1][0])].get("lnL")])],
         input_distribution=dict(base_configurations=len(bases), pairs=stats["pairs"], by_transformation=stats["by_xf"], by_model_class=dist,
-                                model_evaluated_variants=stats["model_variants"], model_reroot_paths=stats["model_reroot"]),
+                                model_evaluated_variants=stats["model_variants"], model_reroot_paths=stats["model_reroot"],
+                                user_predicate_sets=dict(refused_by_constructor=stats["refused_modes"], accepted=stats["accepted_modes"]),
+                                large_pair=stats["large"],
+                                matrix=c02.distribution_matrix([(c, obs_of[id(c)]) for c in flat])),
         partial=["IEEE-754 rounding is outside the theorems (tolerance-based comparison of two runs)",
                  "reversibility / Chapman-Kolmogorov of the implementation's matrices are premises (C05), observed only numerically",
                  "re-rooting with edge-scoped parameters is not exercised (edge identity changes with the root); "
@@ -431,5 +535,9 @@ def replay(path: str) -> int:
     slack = sum(P_ABS / max(x, 1e-300) for x in ob["site_liks"]) if approx else 0.0
     bad = (not abs(ov["lnL"] - want) <= LNL_TOL * max(1.0, abs(want)) + slack or len(exp) != len(ov["site_liks"])
            or any(not site_close(a, x, approx) for a, x in zip(exp, ov["site_liks"])))
+    pc = c02.param_checks(v, ov)
+    if pc:
+        print("oracle:", pc[1]["broken"], "-- expected", pc[1]["expected_by_spec"], "observed", pc[1]["observed_impl"])
+        bad = True
     print("REPRODUCED" if bad else "not reproduced")
     return 1 if bad else 0
